@@ -470,6 +470,18 @@ func runC05(c *Ctx) {
 		if sfFn == nil || nExec == 0 {
 			c.anchorMissing("singleflight refresh function in doLazyUpdate")
 		}
+		// nobody else forgets a key: a Forget outside the refresh function (timer, watchdog, another goroutine) can
+		// hit a later refresh of the same question while it is in flight
+		for _, f := range p.funcsIn(relCachePlugin) {
+			fn := f
+			eachInstr(f, func(x ssa.Instruction) {
+				cc, ok := x.(ssa.CallInstruction)
+				if !ok || callName(cc) != "(*golang.org/x/sync/singleflight.Group).Forget" || fn == sfFn {
+					return
+				}
+				c.fail("forget-only-by-refresh@"+funcName(fn), instrPos(x), "the singleflight key is forgotten outside the refresh function: the Forget is not tied to the refresh it was meant for, so it can release the key of a later refresh that is still in flight and a second refresh for the same question starts")
+			})
+		}
 	}
 
 	// ---------------------------------------------------------------- R8
